@@ -24,10 +24,10 @@ import (
 // effective http.Server fields.
 
 type llSite struct {
-	host                     string
+	host                      string
 	read, header, write, idle int // -1 unset, 0 none, >0 seconds
-	all                      int // `timeouts X` shorthand: -1 not used
-	maxHdr                   int // 0 unset, else bytes
+	all                       int // `timeouts X` shorthand: -1 not used
+	maxHdr                    int // 0 unset, else bytes
 }
 
 func strictest(vals []int, def int) int {
